@@ -64,7 +64,8 @@ THEOREMS = {
             "shared_cache_counterexample", "radius_exact"],
     "C16": ["split_partition", "random_split_partition", "batches_cover_once", "stats_additive", "min_le_mean_le_max",
             "evaluator_count_total", "evaluator_ordered", "getStats_count_sum", "count_partition", "evaluator_count_total_nn", "evaluator_ordered_nn", "credited_eq_creditedBy"],
-    "C17": ["rejected_noop", "train_rejected_noop", "query_rejected_noop", "rejected_then_continue"],
+    "C17": ["rejected_noop", "train_rejected_noop", "query_rejected_noop", "rejected_then_continue",
+            "runHist_erase_rejected", "runOuts_erase_rejected", "accepted_all_ok", "rejected_tape_untouched"],
     "C18": ["series_disambiguation_fit", "series_disambiguation_predict", "column_roundtrip", "caller_cells_untouched", "arms_by_value"],
     "C19": ["copy_bisimilar", "copy_independent", "copy_equal", "shared_copy_counterexample", "noninterference_private"],
     "C20": ["fit_perm", "partialFit_perm", "fitRec_perm", "rowsOf_perm", "shift_greedy", "shift_ucb", "shift_softmax_invariant",
@@ -104,7 +105,7 @@ IMPORTS = {
     "C14": ["MabModel.Props.C14", "MabModel.Props.C14b"],
     "C15": ["MabModel.Props.C15"],
     "C16": ["MabModel.Props.C16", "MabModel.Props.C16b"],
-    "C17": ["MabModel.Props.C17"],
+    "C17": ["MabModel.Props.C17", "MabModel.Props.C17b"],
     "C18": ["MabModel.Props.C18"],
     "C19": ["MabModel.Props.C19"],
     "C20": ["MabModel.Props.C20", "MabModel.Props.C20b", "MabModel.Props.C20c", "MabModel.Props.C20d",
